@@ -44,7 +44,7 @@ PROPS["C06"]["assumptions"] = [
 
 # tie of BV/Model/StreamJob.lean (jobParams, observed, streamJob) through the sjob lines of stage favor
 PROPS["C06"]["rule"] = PROPS["C06"]["rule"] + (
-    " Stage favor, sjob lines (256 per quick run): jobs whose encoder is fresh at their call (job 0 at quality 0..9; any job at quality 0/1; jobs with an empty prefix; plus ~12 KB of random bytes at quality 0/1 with a 2^10/2^12 window, where the job buffer is too small and the job answers Err) run through the REAL compress_part (hook) and through a recorded replica of its encoder calls; the model streamJob replays the FINISH call with the recorded payload answers as oracle and must give the same Ok(bytes)/Err; oracle on the real code: replica == real job.")
+    " Stage favor, sjob lines (256 per quick run): jobs whose encoder is fresh at their call (job 0 at quality 0..11; any job at quality 0/1; jobs with an empty prefix; plus ~12 KB of random bytes at quality 0/1 with a 2^10/2^12 window, where the job buffer is too small and the job answers Err) run through the REAL compress_part (hook) and through a recorded replica of its encoder calls; the model streamJob replays the FINISH call with the recorded payload answers as oracle and must give the same Ok(bytes)/Err; oracle on the real code: replica == real job.")
 PROPS["C06"]["level_note"] = PROPS["C06"]["level_note"] + (
     " BV/Model/StreamJob.lean (jobParams, observed, streamJob: compress_part as compressPart over compressStream) is tied to the real compress_part by the sjob lines of stage favor.")
 PROPS["C06"]["trusted_base"] = PROPS["C06"]["trusted_base"] + [
